@@ -1,4 +1,4 @@
-CONSTANTS NVals = 2  NOpsMax = 1  ScheduleOnce = FALSE
+CONSTANTS NVals = 2  NOpsMax = 1  Rich = TRUE  ScheduleOnce = FALSE
 SPECIFICATION Spec
 INVARIANTS ResultOk SortIsPermutation
 PROPERTY Terminates
